@@ -136,6 +136,82 @@ def check_vec(prop, tier, seed, work, t0):
                         replay_info={"harness": "vecops.cpp", "how": "./check %s --replay <file>" % prop})
 
 
+# ------------------------------------------------------------------------------------------ C03 / C04 / C05 / C19
+NTT_LIBS = ["goldilocks_base_field.cpp", "ntt_goldilocks.cpp"]
+NTT_RULE = {
+    "C03": "configurations (object maxDomain 2^S, size 2^d<=2^S incl. d<S and size 0, ncols in {0,1,2,3,4,5,7,8,9,16,17,33}, nphase in {0..d+2, 2^63, 2^64-1}, "
+           "nblock in {0,1,2,3,ncols-1,ncols,ncols+1,2^64-1}, caller buffer of exactly size*ceil(ncols/nblock) or NULL, dst in {src, other, NULL}, "
+           "threads rotated through {1,2,3,4,8,16,33}) walked exhaustively up to S=smax and sampled up to d=dmax, each executed in exact-size guard-page "
+           "buffers on uniform random columns (one random execution per configuration speaks for all inputs of that configuration because the "
+           "transform is a data-independent linear map - checked by the linearity monitor), boundary/non-canonical columns and identity matrices, and "
+           "compared at every output position with the naive DFT (small n) or an independent recursive FFT cross-checked by Horner at 8 positions. "
+           "distinct = distinct configuration tuples plus distinct pass schedules seen through the hook; all are non-trivial (each runs the full pipeline).",
+    "C19": "random and pattern-directed call sequences (2-24 calls of NTT/INTT/extendPol with differing sizes, ncols, nphase, nblock, buffer, alias) on one "
+           "shared object; every call is also issued on a freshly constructed object and both are compared with the oracle; a call where exactly one of "
+           "the two disagrees is a violation with the shortest failing prefix as witness. distinct = distinct sequences.",
+}
+NTT_RULE["C04"] = NTT_RULE["C03"].replace("naive DFT", "naive inverse DFT (n^-1, w^-1)") + " Additionally INTT(NTT(x)) and NTT(INTT(x)) round trips with independently drawn configurations for the two legs."
+NTT_RULE["C05"] = ("configurations (N=2^a<=N_ext=2^e incl. a=0 and a=e, object built for N and for larger sizes, ncols in {1,2,3,5,8,9,17}, the nphase/nblock/"
+                   "buffer/thread sets of C03, output==input (N_ext rows) or distinct) walked exhaustively up to e=emax and sampled above; oracle = inverse DFT of "
+                   "the column then Horner evaluation at 7*w_Next^k for every k (or recursive FFT of the shifted coefficients cross-checked by Horner); rows beyond N "
+                   "of an in-place buffer hold garbage that must not matter. distinct = configuration tuples + hook schedules.")
+NTT_REQUIRED = {
+    "C03": ["cfg:NTT", "cfg:alias0", "cfg:alias1", "cfg:alias2", "cfg:blocked_even", "cfg:blocked_uneven", "cfg:caller_buffer", "cfg:even_effective_phases",
+            "cfg:odd_effective_phases", "cfg:nblock_clamped", "cfg:nphase_clamped", "cfg:size_below_object_domain", "cfg:size_one", "cfg:size_zero_noop",
+            "cfg:zero_columns_noop", "cfg:identity_matrix_input", "cfg:boundary_input", "hook:revperm:branch0", "hook:revperm:branch2",
+            "hook:ntt_pass:writeback0", "hook:ntt_land:in_destination", "monitor:linearity_triples", "monitor:root_table_entries_checked",
+            "omp_shim:regions_with_permuted_member_order", "omp:real_libgomp_processes", "oracle:naive_dft_columns", "oracle:recursive_fft_columns"],
+    "C19": ["history:sequences", "history:extendPol_N_grows", "history:extendPol_N_shrinks", "history:large_then_small", "history:blocked_unblocked_switch",
+            "history:two_objects_interleaved", "hook:extendPol:tables_recomputed", "hook:extendPol:tables_reused"] +
+           ["history:pair:%s->%s" % (a, b) for a in ("NTT", "INTT", "extendPol") for b in ("NTT", "INTT", "extendPol")],
+}
+NTT_REQUIRED["C04"] = [c.replace("cfg:NTT", "cfg:INTT") for c in NTT_REQUIRED["C03"]] + ["hook:ntt_pass:writeback1", "roundtrip:INTT_of_NTT", "roundtrip:NTT_of_INTT"]
+NTT_REQUIRED["C05"] = ["cfg:extendPol", "cfg:alias0", "cfg:alias1", "cfg:blocked_even", "cfg:blocked_uneven", "cfg:caller_buffer", "cfg:even_effective_phases",
+                       "cfg:odd_effective_phases", "cfg:extend_same_size", "cfg:extend_onsite_zero_padding", "cfg:size_one", "cfg:boundary_input",
+                       "hook:revperm:branch0", "hook:revperm:branch1", "hook:revperm:branch2", "hook:revperm:branch3", "hook:ntt_pass:writeback2",
+                       "hook:computeR", "monitor:linearity_triples", "monitor:root_table_entries_checked", "omp_shim:regions_with_permuted_member_order",
+                       "omp:real_libgomp_processes"]
+
+
+def check_shim_symbols(binary):
+    """the stand-in implements exactly the runtime symbols the library imports; a new one makes the run inconclusive"""
+    import subprocess
+    out = subprocess.run(["nm", "-u", binary], capture_output=True, text=True).stdout
+    bad = [l.split()[-1] for l in out.splitlines() if ("GOMP_" in l or " omp_" in l)]
+    if bad:
+        raise vfw.Inconclusive("OpenMP runtime symbols not provided by the stand-in: %s" % bad)
+
+
+@reg("C03", "C04", "C05", "C19")
+def check_ntt(prop, tier, seed, work, t0):
+    bins = vfw.build_many(work, [
+        {"name": "ntt-shim", "flavour": "shim", "srcs": [H("ntt.cpp")], "libsrcs": NTT_LIBS},
+        {"name": "ntt-prod", "flavour": "prod", "srcs": [H("ntt.cpp")], "libsrcs": NTT_LIBS},
+        {"name": "ntt-asan", "flavour": "asan", "srcs": [H("ntt.cpp")], "libsrcs": NTT_LIBS},
+    ])
+    check_shim_symbols(bins["ntt-shim"])
+    th = tier == "thorough"
+    res = vfw.Results()
+    to = 10800 if th else 1500
+    if prop == "C19":
+        res.merge(vfw.run_shards(work, bins["ntt-shim"], prop, tier, seed, NCPU, ["--sequences", scaled(tier, 3000, 40000)], tag="shim-seq", timeout=to))
+        res.merge(vfw.run_shards(work, bins["ntt-prod"], prop, tier, seed + 7, 8, ["--sequences", scaled(tier, 300, 3000)], tag="libgomp", timeout=to))
+        res.merge(vfw.run_shards(work, bins["ntt-asan"], prop, tier, seed + 13, NCPU, ["--sequences", scaled(tier, 500, 6000)], tag="asan", timeout=to))
+    else:
+        grid = {"C03": ["--smax", scaled(tier, 6, 9), "--dmax", scaled(tier, 13, 20), "--large", scaled(tier, 200, 2000), "--thin", "1"],
+                "C04": ["--smax", scaled(tier, 6, 9), "--dmax", scaled(tier, 13, 20), "--large", scaled(tier, 200, 2000), "--thin", "1"],
+                "C05": ["--emax", scaled(tier, 6, 10), "--elarge", scaled(tier, 12, 20), "--large", scaled(tier, 150, 1500), "--thin", scaled(tier, 2, 1)]}[prop]
+        res.merge(vfw.run_shards(work, bins["ntt-shim"], prop, tier, seed, NCPU, grid, tag="shim-seq", timeout=to))
+        res.merge(vfw.run_shards(work, bins["ntt-prod"], prop, tier, seed, 8, grid + ["--slice", "20", "--linearity", "0", "--roundtrips", scaled(tier, 2000, 20000), "--d22", "0"],
+                                 tag="libgomp", timeout=to))
+        res.merge(vfw.run_shards(work, bins["ntt-asan"], prop, tier, seed, NCPU, grid + ["--slice", scaled(tier, 8, 4), "--large", scaled(tier, 20, 100), "--dmax", "12", "--elarge", "11",
+                                                                                   "--roundtrips", scaled(tier, 2000, 20000), "--d22", "0"], tag="asan", timeout=to))
+    return vfw.finalize(prop, tier, seed, res, t0, NTT_RULE[prop], assumptions=ASSUME_COMMON + [
+        "the pinned table of 33 roots in the oracle (self-checked for order and the chain W[k+1]^2=W[k]) defines w_n",
+        "the pthread stand-in for libgomp delivers legal OpenMP schedules (sequential permuted member order); a 5% slice runs on real libgomp"],
+        required=NTT_REQUIRED[prop], replay_info={"harness": "ntt.cpp", "how": "./check %s --replay <file>" % prop})
+
+
 def replay(prop, path, work, seed):
     """Re-run the recorded violation: rebuild and run the same harness on the recorded case only."""
     rp = json.load(open(path))
@@ -143,3 +219,12 @@ def replay(prop, path, work, seed):
     os.environ["VERIF_SEED"] = str(rp.get("seed", seed))
     print("replaying %s (key %s): re-running the %s tier of %s with the recorded seed" % (path, rp.get("key"), rp.get("tier"), prop))
     return REGISTRY[prop](prop, rp.get("tier", "quick"), int(rp.get("seed", seed)), work, t0)
+
+
+# ------------------------------------------------------------------------------------------ checks living in their own modules
+for _m in ("props_c16", "props_c17", "props_c20"):
+    try:
+        _mod = __import__(_m)
+    except ImportError:
+        continue
+    _mod.register(REGISTRY)
